@@ -84,6 +84,8 @@ PRED = {
     "nested-named-args": lambda c: len(re.findall(r"[A-Za-z_][A-Za-z_0-9]*:\(", c["src"])) >= 10 and bracket_depth(c["src"]) >= 10,
     # C12-H4: at least 10 unclosed `(`, each behind an operator that also has a prefix form (+ - * == .. and the alias `=`)
     "unclosed-after-prefix-operator": lambda c: c["src"].count("(") - c["src"].count(")") >= 10 and len(re.findall(r"(?:\+|-|\*|==|(?<![=!<>~])=|\.\.|:)\s*\(", c["src"])) >= 10,
+    # C12-N14: a lambda without parameters (`->` at the start of a pipeline stage / parenthesis / line, possibly after `func`)
+    "parameterless-lambda": lambda c: re.search(r"(?:^|[|(\n=,{\[])\s*(?:func\s*)?->", c["src"]) is not None,
     # C12-N13: a relation literal (array of tuples) with a row that is not a tuple
     "relation-literal-row": lambda c: re.search(r"\[[^\]]*\{[^\]]*\}\s*,\s*[^{\s][^\]]*\]|\[\s*[^{\s\]][^\]]*,\s*\{", (c.get("prog") or "") + " " + c["src"], re.S) is not None,
 }
